@@ -14,7 +14,7 @@ from dask_array._utils import asarray_safe
 from dask_array._backends_array import array_creation_dispatch
 from dask.utils import cached_property
 
-from ._expr import _spawn_bitgens
+from ._expr import _peek_bitgens
 from ._generator import Generator
 from ._random_state import RandomState
 
@@ -22,7 +22,11 @@ from ._random_state import RandomState
 def _choice_rng(state_data, a, size, replace, p, axis, shuffle):
     from ._expr import _rng_from_bitgen
 
-    state = _rng_from_bitgen(state_data)
+    import copy
+
+    # Draw from a copy: ``state_data`` is a bit generator held by the graph, and
+    # advancing it in place would make a second run of the same task differ.
+    state = _rng_from_bitgen(copy.deepcopy(state_data))
     return state.choice(a, size=size, replace=replace, p=p, axis=axis, shuffle=shuffle)
 
 
@@ -133,7 +137,10 @@ class RandomChoice(IO):
         # array (mirrors _expr.Random._info). Derive a 128-bit entropy per block
         # from the root RNG via one SeedSequence — deterministic from the root,
         # so recompute is stable — and let the worker rebuild the state.
-        root_entropy = int.from_bytes(self._state.bytes(16), "little")
+        # ``_state`` is a frozen snapshot (see ``RandomState.choice``): never advance it here
+        import copy
+
+        root_entropy = int.from_bytes(copy.deepcopy(self._state).bytes(16), "little")
         words = (
             np.random.SeedSequence(root_entropy)
             .generate_state(len(self.sizes) * 4, dtype=np.uint32)
@@ -176,7 +183,8 @@ class RandomChoiceGenerator(RandomChoice):
 
     @cached_property
     def state_data(self):
-        return _spawn_bitgens(self._state, len(self.sizes))
+        # ``_state`` is a frozen snapshot (see ``Generator.choice``): never advance it here
+        return _peek_bitgens(self._state, len(self.sizes))
 
     def _layer(self) -> dict:
         keys = product([self._name], *[range(len(bd)) for bd in self.chunks])
